@@ -84,6 +84,15 @@ def check_case(case):
             viol("score-conversion", f"scores {b.scores!r} != {want!r}")
         if not specified and b.scores not in ({"A": w}, {"A": exp_s}):
             viol("score-conversion", f"scores {b.scores!r} neither exact nor closest fraction")
+        # zero scores are dropped whatever numeric type they (and their neighbours) have
+        for zero in (0, 0.0, F(0)):
+            for one in (1, 1.0, F(1), F(1, 3)):
+                bz = Ballot(scores={"A": one, "B": zero, "C": zero})
+                if bz.scores != {"A": F(one).limit_denominator()}:
+                    viol("score-conversion[zero-dropped]", f"scores {{'A': {one!r}, 'B': {zero!r}, 'C': {zero!r}}} stored as {bz.scores!r}")
+            bz = Ballot(scores={"A": zero})
+            if bz.scores not in (None, {}):
+                viol("score-conversion[zero-dropped]", f"all-zero score card {{'A': {zero!r}}} stored as {bz.scores!r}")
         for fld, val in (("weight", F(9)), ("ranking", None), ("scores", None), ("id", "x"), ("voter_set", set())):
             try:
                 setattr(b, fld, val)
@@ -190,6 +199,13 @@ def check_case(case):
     if base is not None and n <= 2:
         zb = Ballot(ranking=(frozenset(["Zed"]), frozenset(["A"])), weight=F(0))
         pz = PreferenceProfile(ballots=base.ballots + (zb,))
+        z2 = Ballot(ranking=(frozenset(["A"]), frozenset(["Zed"])), weight=F(0))
+        pzz = PreferenceProfile(ballots=(zb,) + base.ballots + (z2, zb))
+        czz = pzz.condense_ballots()
+        if czz.total_ballot_wt != base.total_ballot_wt or {k: v for k, v in W_content(czz.ballots).items() if v != 0} != {k: v for k, v in W_content(base.ballots).items() if v != 0}:
+            viol("condense:zero-weight-contents", f"condensing a profile with zero-weight ballots changes the weights: {W_content(czz.ballots)} (total {czz.total_ballot_wt}) vs {W_content(base.ballots)}")
+        if len({content_key(b) for b in czz.ballots}) != len(czz.ballots) or W_content(czz.condense_ballots().ballots) != W_content(czz.ballots):
+            viol("condense:zero-weight-contents", "condensed profile with zero-weight contents is not distinct / not stable under condensing again")
         if not (pz == base) or not (base == pz):
             viol("eq:zero-weight-ballot", "a profile and the same profile with an extra zero-weight ballot assign the same total weight to every content but compare unequal")
     # same rankings and the same score cards, paired differently: different contents, hence unequal profiles
